@@ -48,6 +48,16 @@ Theorem fill_rgba_spec : forall w h yp up vp buf, (1 <= w)%nat -> length yp = (w
   fill_rgba w yp up vp buf = Ok (rgba_plane w h yp up vp buf).
 Proof. exact fill_rgba_spec_lemma. Qed.
 
+(* no i32/u32 overflow or over-wide shift in a checked build, for every triple *)
+Theorem yuv_kernels_no_overflow : forall y0 y1 u v, byte y0 -> byte y1 -> byte u -> byte v ->
+  rgb_pair_ok y0 y1 u v = true /\ rgb_tail_ok y0 u v = true /\ rgba_tail_ok y0 u v = true /\
+  forall b0 b1 b2 b3 b4 b5 b6 b7, rgba_pair_ok y0 y1 u v b0 b1 b2 b3 b4 b5 b6 b7 = true.
+Proof.
+  intros y0 y1 u v H0 H1 Hu Hv. split; [exact (rgb_pair_ok_lemma y0 y1 u v H0 H1 Hu Hv)|].
+  split; [exact (rgb_tail_ok_lemma y0 u v H0 Hu Hv)|]. split; [exact (rgba_tail_ok_lemma y0 u v H0 Hu Hv)|].
+  intros. exact (rgba_pair_ok_lemma y0 y1 u v _ _ _ _ _ _ _ _ H0 H1 Hu Hv).
+Qed.
+
 (* non-vacuity / sanity: a 3x3 frame (odd width and height), and a triple that saturates both ways *)
 Example yuv_instance :
   fill_rgb 3 [16; 128; 235; 0; 255; 77; 90; 91; 92] [128; 240; 16; 90] [128; 16; 240; 200] (repeat 0 27)
